@@ -222,7 +222,8 @@ def insertSubWords : Nat → SV → Except LFault SV
               let v3 := match v2 with
                 | .node .subWord [io, isz] [iv] _ => if offset == io && length == isz then iv else v2
                 | _ => v2
-              if offset + shift ≥ usizeMax then .error (.panic "sub_word.rs offset + shift")
+              -- the shifted mask must lie inside the 256-bit word (checked add, then the bound)
+              if offset + shift ≥ usizeMax || offset + shift + length > 256 then generic
               else .ok (rebuild .subWord [offset + shift, length] [v3]))
        | none => generic)
     | _, _ => generic
@@ -246,7 +247,10 @@ def insertMulShifts : Nat → SV → SV
       (match pick with
        | some (c, value) =>
          (match whichPowerOf2 c with
-          | some off => rebuild .shifted [off] [value]
+          | some off =>
+            (match value with
+             | .node .subWord [_, sz] _ _ => if off + sz > 256 then generic else rebuild .shifted [off] [value]
+             | _ => rebuild .shifted [off] [value])
           | none => generic)
        | none => generic)
     | _, _ => generic
@@ -357,8 +361,10 @@ def insertMappingOffset : Nat → SV → SV
     | .add, [left, right] =>
       let pick : Option (SV × SV × Nat) :=
         match left, right with
-        | .node .mappingIndex _ [slot, key] _, .node .knownData (w :: _) _ _ => some (key, slot, asUsize w)
-        | .node .knownData (w :: _) _ _, .node .mappingIndex _ [slot, key] _ => some (key, slot, asUsize w)
+        | .node .mappingIndex _ [slot, key] _, .node .knownData (w :: _) _ _ =>
+          if w < 2 ^ 32 then some (key, slot, w) else none
+        | .node .knownData (w :: _) _ _, .node .mappingIndex _ [slot, key] _ =>
+          if w < 2 ^ 32 then some (key, slot, w) else none
         | _, _ => none
       (match pick with
        | some (key, slot, off) =>
